@@ -4,7 +4,7 @@ set -u
 P="$1"; ID="$2"; TIER="${3:-quick}"
 cd /verif
 git -C /repo diff --quiet || { echo "repo not clean"; exit 3; }
-git -C /repo apply "$P" || { echo "patch does not apply"; exit 3; }
+git -C /repo apply "$P" 2>/dev/null || { git -C /repo apply -3 "$P" >/dev/null 2>&1 && git -C /repo reset -q; } || { git -C /repo checkout -- .; echo "patch does not apply"; exit 3; }
 ./check "$ID" "$TIER" > /verif/tmp/try_seed.log 2>&1
 RC=$?
 git -C /repo checkout -- .
